@@ -48,7 +48,8 @@ Theorem C08_infallible_accessor_never_panics :
   slot_get (ss_field sp) (tm_slots tm) <> None.
 Proof. exact accessor_never_panics. Qed.
 
-(* user modifications stay for as long as the machine stays: writing a present slot keeps the invariant *)
+(* user modifications stay for as long as the machine stays: writing a present slot keeps the invariant
+   (the in-place accessors are read-modify-write: the model's OMut / OTMut add to the stored value) *)
 Theorem C08_modification_kept :
   forall (m : machine), fields_distinct m ->
   forall (tm : tmachine) (f : ident) (v : nat),
